@@ -24,7 +24,7 @@ PROBES = {"C09": ["ensemble", "pipeline", "multiplexer", "stacking", "online_ens
                   "members_are_clones_checked", "parallel_member_fit", "update_params_false",
                   "reconfigured_and_refitted", "multiplexer_intervals_checked",
                   "weights_from_out_of_sample_forecasts_checked", "pipeline_as_transformer_step",
-                  "member_fit_params_checked", "sibling_from_same_arguments"]}
+                  "member_fit_params_checked", "sibling_from_same_arguments", "absolute_horizon_at_fit"]}
 FAULT_KINDS = {"C09": ["schedule_ooo", "schedule_interleave", "overlap_batch", "pickle_roundtrip",
                        "shared_constructor_arguments"]}
 RULE = {"C09": (
@@ -120,9 +120,14 @@ def generate(prop, rng, tier):
         hist.append({"take": take, "overlap": rng.choice([0, 0, 1, 2]), "up": rng.random() < 0.6,
                      "pickle": rng.random() < 0.15})
         total += take
+    fit_abs = bool(fh_fit) and rng.random() < 0.25
+    if fit_abs:
+        hist = []      # (an absolute horizon stays the same time points: no moving cutoffs here)
     return {
         "spec": spec, "steps": steps, "fh_at_fit": fh_fit, "n0": n0, "history": hist,
-        "refit_other": rng.random() < 0.5,
+        # the horizon given to fit written as absolute time points
+        "fit_abs": fit_abs,
+        "refit_other": rng.random() < 0.5 and not fit_abs,
         "series": {"seed": rng.randint(0, 10 ** 6), "n": total + 2, "origin": rng.choice([0, 0, 4, 30, -10]),
                    "index": rng.choice(["range", "range", "int"]), "sp": rng.choice([2, 3, 4])},
         "sched": {"mode": rng.choice(["fifo", "ooo", "interleave", "interleave"]),
@@ -230,7 +235,13 @@ def execute(prop, scen):
         fit_kw = {"m%d" % i: {"spy_marker": i} for i in range(len(spec["members"]))}
     with sched.scenario_schedule(sc):
         mark = len(peers.CTX.log)
-        ok, _ = run("fit", lambda: comp.fit(y0, fh=fh_fit, **fit_kw))
+        fh_user = fh_fit
+        if scen.get("fit_abs") and fh_fit:
+            from sktime.forecasting.base import ForecastingHorizon
+            fh_user = ForecastingHorizon(pd.Index([int(y0.index[-1]) + s_ for s_ in steps], dtype=np.int64),
+                                         is_relative=False)
+            res.probe("absolute_horizon_at_fit")
+        ok, _ = run("fit", lambda: comp.fit(y0, fh=fh_user, **fit_kw))
         if not ok:
             res.sched = sc.stats()
             res.digest = "fit_raised"
